@@ -188,7 +188,17 @@ impl Pol {
         }
     }
 
-    fn to_policies(&self) -> Vec<Arc<dyn PathPolicy>> {
+    pub fn label(&self) -> &'static str {
+        match self {
+            Pol::None => "none",
+            Pol::DenyAll => "deny-all",
+            Pol::DenyAs(_) => "deny-as",
+            Pol::DenyIface(..) => "deny-interface",
+            Pol::MaxIfaces(_) => "max-interfaces",
+        }
+    }
+
+    pub fn to_policies(&self) -> Vec<Arc<dyn PathPolicy>> {
         match self.clone() {
             Pol::None => vec![],
             Pol::DenyAll => vec![Arc::new(FnPolicy(Box::new(|_| false)))],
